@@ -131,6 +131,10 @@ def tr(node, env):
             return "(pysum %s)" % args[0][0], "num"
         if fname == "len" and len(args) == 1 and args[0][1] in ("nums", "strs", "list"):
             return "(List.length %s)" % args[0][0], "nat"
+        if fname == "math.log" and len(args) == 1 and args[0][1] == "num":
+            return "(nlog %s)" % args[0][0], "num"
+        if fname == "math.exp" and len(args) == 1 and args[0][1] == "num":
+            return "(nexp %s)" % args[0][0], "num"
         if fname == "max" and len(args) == 2:
             return "(pymax %s %s)" % (args[0][0], args[1][0]), "num"
         if fname == "min" and len(args) == 2:
@@ -139,7 +143,7 @@ def tr(node, env):
     if isinstance(node, ast.BinOp):
         pa, ta = tr(node.left, env)
         pb, tb = tr(node.right, env)
-        f = {ast.Add: "nadd", ast.Sub: "nsub", ast.Mult: "nmul"}.get(type(node.op))
+        f = {ast.Add: "nadd", ast.Sub: "nsub", ast.Mult: "nmul", ast.Div: "ndiv"}.get(type(node.op))
         if f and ta == "num" and tb == "num":
             return "(%s %s %s)" % (f, pa, pb), "num"
         raise Untranslatable("binary operator")
@@ -313,6 +317,111 @@ def props_of(sid):
         if sid.startswith(pre):
             return ps
     return []
+
+
+# ---------------------------------------------------------------------------
+# Arithmetic sites: the arithmetic expressions (right-hand sides of assignments, return values, call arguments,
+# in-place divisors) that the model mirrors.  Each is selected in the current source, translated to Gallina
+# (a_<id> in SrcGuards.v) and tied, by conversion, to the pure term m_<..> of coq/Proofs/ArithSites.v, where lemmas
+# (size_exp_site, size_lin_site, growth_rate_site, size_events_en_site, ancestry_events_site) show that the model
+# functions return exactly those terms.
+def select(fn, sel):
+    """the expression a selector designates inside fn, or None"""
+    kind = sel[0]
+    nodes = sorted((n for n in ast.walk(fn) if hasattr(n, "lineno")), key=lambda n: (n.lineno, n.col_offset))
+    if kind == "assign":            # ("assign", name, k): value of the k-th assignment to a plain name
+        hits = [n.value for n in nodes if isinstance(n, ast.Assign) and len(n.targets) == 1
+                and isinstance(n.targets[0], ast.Name) and n.targets[0].id == sel[1]]
+    elif kind == "return":          # ("return", k)
+        hits = [n.value for n in nodes if isinstance(n, ast.Return) and n.value is not None]
+        sel = (kind, None, sel[1])
+    elif kind == "arg":             # ("arg", callee, position, k)
+        hits = [n.args[sel[2]] for n in nodes if isinstance(n, ast.Call) and ast.unparse(n.func) == sel[1] and len(n.args) > sel[2]]
+        sel = (kind, None, sel[3])
+    elif kind == "kw":              # ("kw", callee, keyword, k)
+        hits = [k.value for n in nodes if isinstance(n, ast.Call) and ast.unparse(n.func) == sel[1]
+                for k in n.keywords if k.arg == sel[2]]
+        sel = (kind, None, sel[3])
+    elif kind == "augdiv":          # ("augdiv", target text, k): the divisor of  target /= divisor
+        hits = [n.value for n in nodes if isinstance(n, ast.AugAssign) and isinstance(n.op, ast.Div) and ast.unparse(n.target) == sel[1]]
+    else:
+        return None
+    k = sel[2]
+    return hits[k] if k < len(hits) else None
+
+
+EP = {"epoch.start_time": ("s", N), "epoch.end_time": ("e", N), "epoch.start_size": ("ss", N), "epoch.end_size": ("es", N),
+      "epoch.time_span": ("(m_time_span s e)", N), "time": ("t", N), "N0": ("N0", N)}
+ARITH_SITES = [
+    # (id, file, function, selector, bindings, binders, model term, properties)
+    ("time_span", "demes/demes.py", "Epoch.time_span", ("return", 0), {"self.start_time": ("s", N), "self.end_time": ("e", N)},
+     "(s e : num)", "m_time_span s e", ["C13", "C07"]),
+    ("size_exp_dt", "demes/demes.py", "Deme.size_at", ("assign", "dt", 0), EP, "(s e t : num)", "m_size_dt s e t", ["C13"]),
+    ("size_exp_r", "demes/demes.py", "Deme.size_at", ("assign", "r", 0), EP, "(ss es : num)", "m_size_r ss es", ["C13"]),
+    ("size_exp_N", "demes/demes.py", "Deme.size_at", ("assign", "N", 1), dict(EP, r=("r", N), dt=("dt", N)), "(ss r dt : num)",
+     "m_size_exp ss r dt", ["C13"]),
+    ("size_lin_dt", "demes/demes.py", "Deme.size_at", ("assign", "dt", 1), EP, "(s e t : num)", "m_size_dt s e t", ["C13"]),
+    ("size_lin_N", "demes/demes.py", "Deme.size_at", ("assign", "N", 2), dict(EP, dt=("dt", N)), "(ss es dt : num)",
+     "m_size_lin ss es dt", ["C13"]),
+    ("growth_dt", "demes/ms.py", "to_ms.get_growth_rate", ("assign", "dt", 0), EP, "(s e N0 : num)", "m_growth_dt s e N0", ["C07"]),
+    ("growth_ret", "demes/ms.py", "to_ms.get_growth_rate", ("assign", "ret", 1), dict(EP, dt=("dt", N)), "(ss es dt : num)",
+     "m_growth_ret ss es dt", ["C07"]),
+    ("to_ms_en_size", "demes/ms.py", "to_ms", ("arg", "PopulationSizeChange", 2, 0), {"size": ("sz", N), "N0": ("N0", N)}, "(sz N0 : num)",
+     "m_en_size sz N0", ["C07"]),
+    ("to_ms_anc_prop", "demes/ms.py", "to_ms", ("assign", "proportion", 0),
+     {"deme.proportions[k]": ("pk", N), "deme.proportions[k:]": ("rest", "nums")}, "(pk : num) (rest : list num)", "m_anc_prop pk rest", ["C07"]),
+    ("to_ms_anc_split", "demes/ms.py", "to_ms", ("arg", "Split", 2, 0), {"proportion": ("p", N)}, "(p : num)", "m_split_keep p", ["C07"]),
+    ("to_ms_pulse_split", "demes/ms.py", "to_ms", ("arg", "Split", 2, 1), {"pulse.proportions[0]": ("p", N)}, "(p : num)", "m_split_keep p",
+     ["C07"]),
+    ("to_ms_rate", "demes/ms.py", "to_ms", ("kw", "MigrationMatrixEntryChange", "rate", 1), {"N0": ("N0", N), "migration.rate": ("r", N)},
+     "(N0 r : num)", "m_ms_rate N0 r", ["C07"]),
+    ("to_ms_time_scale", "demes/ms.py", "to_ms", ("augdiv", "event.t", 0), {"N0": ("N0", N)}, "(N0 : num)", "m_4N0 N0", ["C07"]),
+    ("from_ms_time", "demes/ms.py", "build_graph", ("assign", "time", 0), {"N0": ("N0", N), "t": ("t", N)}, "(N0 t : num)", "m_from_time N0 t",
+     ["C08"]),
+    ("from_ms_growth_G", "demes/ms.py", "build_graph", ("assign", "growth_rate", 1), {"N0": ("N0", N), "event.alpha": ("a", N)}, "(a N0 : num)",
+     "m_from_growth a N0", ["C08"]),
+    ("from_ms_growth_g", "demes/ms.py", "build_graph", ("assign", "growth_rate", 2), {"N0": ("N0", N), "event.alpha": ("a", N)}, "(a N0 : num)",
+     "m_from_growth a N0", ["C08"]),
+    ("from_ms_size_N", "demes/ms.py", "build_graph", ("assign", "size", 0), {"N0": ("N0", N), "event.x": ("x", N)}, "(x N0 : num)",
+     "m_from_size x N0", ["C08"]),
+    ("from_ms_size_n", "demes/ms.py", "build_graph", ("assign", "size", 1), {"N0": ("N0", N), "event.x": ("x", N)}, "(x N0 : num)",
+     "m_from_size x N0", ["C08"]),
+    ("from_ms_rate_scale", "demes/ms.py", "build_graph", ("augdiv", "migration['rate']", 0), {"N0": ("N0", N)}, "(N0 : num)", "m_4N0 N0", ["C08"]),
+]
+
+
+def generate_arith():
+    cache, defs, ties, report = {}, [], [], []
+    for sid, path, qual, sel, env, binders, model, props in ARITH_SITES:
+        if path not in cache:
+            cache[path] = load(path)
+        fn = cache[path].get(qual)
+        status, term, src = "ok", None, None
+        if fn is None:
+            status = "function %s not found" % qual
+        else:
+            node = select(fn, sel)
+            if node is None:
+                status = "expression %r not found" % (sel,)
+            else:
+                src = ast.unparse(node)
+                try:
+                    term, ty = tr(node, env)
+                    if ty != "num":
+                        status = "not a number"
+                except Untranslatable as e:
+                    status = "untranslatable: %s" % e
+        report.append(dict(site="a_" + sid, file=path, function=qual, index=None, status=status, source=src, props=props))
+        if status != "ok":
+            continue
+        names = []
+        for grp in binders.split(")"):
+            grp = grp.strip().lstrip("(")
+            if ":" in grp:
+                names += grp.split(":")[0].split()
+        defs.append("  (* %s  %s %r:  %s *)\n  Definition a_%s %s : num := %s.\n" % (path, qual, sel, src.replace("*)", "* )"), sid, binders, term))
+        ties.append(("a_" + sid, "forall %s, a_%s %s = (%s)" % (binders, sid, " ".join(names), model)))
+    return defs, ties, report
 
 
 # ---------------------------------------------------------------------------
@@ -571,7 +680,7 @@ def generate():
 
 HEADER = """(* GENERATED by xlate/pyxlate.py from the current source of /repo on every run. Do not edit. *)
 From Coq Require Import Bool List String Arith.
-From Demes Require Import Base.Num Base.Py Model.MDM Model.Resolve.
+From Demes Require Import Base.Num Base.Py Model.MDM Model.Resolve Proofs.ArithSites.
 Import ListNotations.
 Local Open Scope string_scope.
 Local Open Scope list_scope.
@@ -606,6 +715,9 @@ def cmd_gen(outdir, coqdir="/verif/coq"):
     xlate_report.json; returns the report (one entry per site with status ok / broken / untranslated)."""
     import subprocess
     guards, ties, report = generate()
+    adefs, aties, areport = generate_arith()
+    guards += adefs
+    report += areport
     sitems, sreport = structural()
     report += sreport
     os.makedirs(outdir, exist_ok=True)
@@ -631,18 +743,25 @@ def cmd_gen(outdir, coqdir="/verif/coq"):
             for sid, stmt in ties:
                 f.write('  Goal %s.\n  Proof. tryif solve [unfold g_%s; tie] then idtac "TIE-OK %s" else idtac "TIE-BROKEN %s". Abort.\n'
                         % (stmt, sid, sid, sid))
+            for sid, stmt in aties:
+                f.write('  Goal %s.\n  Proof. tryif solve [intros; reflexivity] then idtac "TIE-OK %s" else idtac "TIE-BROKEN %s". Abort.\n'
+                        % (stmt, sid, sid))
             f.write("End TieProbe.\n")
         r = coqc("TieProbe.v")
         out = (r.stdout + r.stderr).split()
         okset = set(out[i + 1] for i, w in enumerate(out[:-1]) if w == "TIE-OK")
-        for sid, stmt in ties:
+        for sid, stmt in ties + aties:
             if sid not in okset:
-                byid[sid]["status"] = "tie broken: the guard derived from the source is not the model's expression"
+                byid[sid]["status"] = "tie broken: the %s derived from the source is not the model's expression" % (
+                    "arithmetic expression" if sid.startswith("a_") else "guard")
         with open(os.path.join(outdir, "GuardTie.v"), "w") as f:
             f.write(TIE_HEADER + "\nSection GuardTie.\n  Context {N : NumOps}.\n\n")
             for sid, stmt in ties:
                 if byid[sid]["status"] == "ok":
                     f.write("  Lemma tie_%s : %s.\n  Proof. unfold g_%s; tie. Qed.\n\n" % (sid, stmt, sid))
+            for sid, stmt in aties:
+                if byid[sid]["status"] == "ok":
+                    f.write("  Lemma tie_%s : %s.\n  Proof. intros; reflexivity. Qed.\n\n" % (sid, stmt))
             f.write("End GuardTie.\n\n")
             for sid, got, expected in sitems:
                 if got == expected:
